@@ -361,6 +361,130 @@ func (w *Walker) minorPieceMate() string {
 	return ""
 }
 
+// castlingSkeleton: kings and rooks on their home squares with the matching rights and a handful of other
+// pieces: castling paths are free, checks are frequent
+func (w *Walker) castlingSkeleton() string {
+	for tries := 0; tries < 500; tries++ {
+		var board [64]byte
+		for i := range board {
+			board[i] = ' '
+		}
+		board[SqE1], board[SqE8] = 'K', 'k'
+		rights := ""
+		if w.rng.Chance(70) {
+			board[SqH1] = 'R'
+			rights += "K"
+		}
+		if w.rng.Chance(70) {
+			board[SqA1] = 'R'
+			rights += "Q"
+		}
+		if w.rng.Chance(70) {
+			board[SqH8] = 'r'
+			rights += "k"
+		}
+		if w.rng.Chance(70) {
+			board[SqA8] = 'r'
+			rights += "q"
+		}
+		if rights == "" {
+			continue
+		}
+		kinds := "QBNPPqbnpp"
+		for i, n := 0, 2+w.rng.Intn(5); i < n; i++ {
+			sq := 8 + w.rng.Intn(48) // ranks 2-7: the back ranks stay free
+			if board[sq] == ' ' {
+				board[sq] = kinds[w.rng.Intn(len(kinds))]
+			}
+		}
+		stm := "w"
+		if w.rng.Bool() {
+			stm = "b"
+		}
+		fen := compressFenBoard(board) + " " + stm + " " + rights + " - 0 1"
+		p, err := position.NewPositionFen(fen)
+		if err != nil || p == nil || p.IsAttacked(p.KingSquare(p.NextPlayer().Flip()), p.NextPlayer()) {
+			continue
+		}
+		return fen
+	}
+	return ""
+}
+
+// checkVsCastlingRoots: positions in which the side to move can give check to a king that still has a
+// castling right (nodes in check with castling rights are then inside the tree from depth 2 on)
+func (w *Walker) checkVsCastlingRoots(k int) []GamePos {
+	var res []GamePos
+	for i := 0; i < k*20 && len(res) < (k+1)/2; i++ { // half of them: castling skeletons with a check available
+		fen := w.castlingSkeleton()
+		if fen == "" {
+			continue
+		}
+		p, _ := position.NewPositionFen(fen)
+		them := p.NextPlayer().Flip()
+		cr := p.CastlingRights()
+		if (them == White && cr&(CastlingWhiteOO|CastlingWhiteOOO) == 0) || (them == Black && cr&(CastlingBlackOO|CastlingBlackOOO) == 0) {
+			continue
+		}
+		cp := *p
+		checks := 0
+		for _, m := range w.legalMoves(&cp) {
+			if p.GivesCheck(m) {
+				checks++
+			}
+		}
+		if checks == 0 {
+			continue
+		}
+		res = append(res, GamePos{Root: fen, P: p})
+	}
+	w.Stream(k*400, true, func(g GamePos) {
+		if len(res) >= k {
+			return
+		}
+		them := g.P.NextPlayer().Flip()
+		cr := g.P.CastlingRights()
+		if (them == White && cr&(CastlingWhiteOO|CastlingWhiteOOO) == 0) || (them == Black && cr&(CastlingBlackOO|CastlingBlackOOO) == 0) {
+			return
+		}
+		// a castling that is possible but for the check: right held and nothing between king and rook
+		empty := func(sqs ...Square) bool {
+			for _, sq := range sqs {
+				if g.P.GetPiece(sq) != PieceNone {
+					return false
+				}
+			}
+			return true
+		}
+		free := false
+		if them == White {
+			free = (cr&CastlingWhiteOO != 0 && empty(SqF1, SqG1)) || (cr&CastlingWhiteOOO != 0 && empty(SqB1, SqC1, SqD1))
+		} else {
+			free = (cr&CastlingBlackOO != 0 && empty(SqF8, SqG8)) || (cr&CastlingBlackOOO != 0 && empty(SqB8, SqC8, SqD8))
+		}
+		if !free {
+			return
+		}
+		cp := *g.P
+		lm := w.legalMoves(&cp)
+		if len(lm) > 40 {
+			return
+		}
+		checks := 0
+		for _, m := range lm {
+			if g.P.GivesCheck(m) {
+				checks++
+			}
+		}
+		if checks == 0 {
+			return
+		}
+		cp2 := *g.P
+		res = append(res, GamePos{Root: g.Root, Moves: g.Moves, P: &cp2})
+	})
+	return res
+}
+
 // shuffleGame builds a game history in which both sides move an officer (or the king) out and
 // back: one or two full there-and-back cycles from a position S and then 0-3 plies of the next
 // cycle, so that S (or a position of the cycle) has occurred once or twice already and the search
